@@ -28,6 +28,7 @@ import (
 	"net/http"
 	"net/http/httptest"
 	"os"
+	"path/filepath"
 	"reflect"
 	"sort"
 	"strings"
@@ -358,6 +359,21 @@ func c07IngestCycle(srv *Server, timesubs bool) {
 	s.Sleep(3000 * 1e6)
 }
 
+// c07NestedRoot builds a VoD root with asset outer (bundled testpic_2s) and asset outer/inner (bundled testpic_8s).
+func c07NestedRoot() (string, error) {
+	root, err := os.MkdirTemp(os.Getenv("VERIF_SCRATCH"), "c07nest")
+	if err != nil {
+		return "", err
+	}
+	if err := os.CopyFS(filepath.Join(root, "outer"), os.DirFS(filepath.Join(vBundledRoot, "testpic_2s"))); err != nil {
+		return "", err
+	}
+	if err := os.CopyFS(filepath.Join(root, "outer", "inner"), os.DirFS(filepath.Join(vBundledRoot, "testpic_8s"))); err != nil {
+		return "", err
+	}
+	return root, nil
+}
+
 func c07NewServer() (*Server, error) {
 	srv, err := vNewServer(vBundledRoot, "", false)
 	if err != nil {
@@ -681,6 +697,47 @@ func TestVerifC07(t *testing.T) {
 			}
 		}
 		rep.Extra["map_ranges_executed"] = vrt.MapRanges.Load()
+
+		// ---- N: an asset directory inside another asset directory (both hold MPDs): the asset a request belongs
+		// to must not depend on the iteration order of the asset table
+		if nroot, err := c07NestedRoot(); err != nil {
+			rep.Note("nested-asset root not built: %v", err)
+		} else {
+			defer os.RemoveAll(nroot)
+			nsrv, err := vNewServer(nroot, "", false)
+			if err != nil {
+				t.Fatalf("nested-asset server: %v", err)
+			}
+			for _, u := range []string{
+				"/livesim2/outer/Manifest.mpd?nowMS=610000",
+				"/livesim2/outer/inner/Manifest.mpd?nowMS=610000",
+				"/livesim2/outer/V300/init.mp4?nowMS=610000",
+				"/livesim2/outer/inner/V300/init.mp4?nowMS=610000",
+				"/livesim2/outer/V300/300.m4s?nowMS=610000",
+				"/livesim2/outer/inner/V300/70.m4s?nowMS=610000",
+				"/livesim2/segtimeline_1/outer/inner/Manifest.mpd?nowMS=610000",
+				"/vod/outer/inner/Manifest.mpd",
+			} {
+				e := c07Elem{name: u, url: u, cmp: true}
+				var base c07Resp
+				for mi, mode := range []int{vrt.MapSorted, vrt.MapReverse} {
+					vrt.SetMapMode(mode)
+					var r c07Resp
+					x := under(func(s *vrt.Sched) { r = c07Serve(nsrv, e, false) })
+					vrt.SetMapMode(vrt.MapNative)
+					reportFails(x, "maporder:nested-asset")
+					rep.Hit("C07.maporder")
+					if mi == 0 {
+						base = r
+					} else if !r.eq(base) {
+						rep.Violate("C07.maporder", "response-depends-on-map-order:nested-asset", fmt.Sprintf("%s answers %v with the asset table iterated in ascending order, %v in descending order", u, base, r), map[string]any{"request": u})
+					}
+				}
+				if base.code != 200 {
+					rep.Note("nested assets: %s answers %d", u, base.code)
+				}
+			}
+		}
 	}
 
 	// ---- I: an instance that loaded its representation data from the metadata cache
